@@ -21,8 +21,36 @@ def setup():
     os.makedirs(core.CACHE, exist_ok=True)
     os.makedirs(os.path.join(core.VERIF, "evidence"), exist_ok=True)
     os.makedirs(os.path.join(core.VERIF, "replays"), exist_ok=True)
+    if ok:
+        ok = selftest()
     print("setup ok" if ok else "setup FAILED")
     return 0 if ok else 2
+
+
+def selftest():
+    """oracle self-validation: rt/x256.h against python big integers"""
+    src = '#include "harness/xself.h"\nint main() { xself_run(3000); vf::finish(); }\n'
+    j = core.Job("xself", src, "g-ub", env={"VERIF_SEED": os.environ.get("VERIF_SEED", "1")})
+    j.keep_raw = True
+    core.build_and_run([j], "selftest")
+    bad = n = 0
+    for line in j.raw:
+        p = line.split()
+        if p[0] != "S":
+            continue
+        n += 1
+        op, a, b, r = p[1], int(p[2]), int(p[3]), int(p[4])
+        def tdiv(x, y):
+            q = abs(x) // abs(y)
+            return q if (x < 0) == (y < 0) else -q
+        want = {"add": lambda: a + b, "sub": lambda: a - b, "mul": lambda: a * b, "cmp": lambda: (a > b) - (a < b), "shl": lambda: a << b,
+                "shrmag": lambda: (abs(a) >> b) * (1 if a >= 0 else -1), "tdiv": lambda: tdiv(a, b), "trem": lambda: a - tdiv(a, b) * b, "fdiv": lambda: a // b}[op]()
+        if want != r:
+            bad += 1
+            if bad < 5:
+                print("ORACLE SELF-VALIDATION FAILED: %s" % line)
+    print("oracle self-validation: %d operations re-computed with python integers, %d disagreements" % (n, bad))
+    return bad == 0 and n > 1000
 
 
 def main():
